@@ -14,7 +14,7 @@ import (
 func init() {
 	register(&propDef{
 		ID:          "C09",
-		Explanation: "The fixpoint equation fmt(fmt(x)) == fmt(x) itself is not decided. Decides the structural necessary condition named by the property's anchors — line-break decisions depend only on layout flags that re-parsing the output reproduces: the parser derives each layout flag (Element.IndentChildren, Element.IndentAttrs, GoCode.Multiline) from the presence of a line break inside a source span, so on the flag=false branch the formatter itself must add no line break inside that span, and on the flag=true branch it must add one. R1 in the node-list writer, the line-break constant can reach the trailing-space write only under the `indent` mode (every assignment of a newline-containing constant to the written value is control-dependent on the indent parameter; values taken from the source node are carried over, not added); R2 for each flag, the constants written directly on the false branch contain no line break and the true branch writes at least one; R3 no attribute writer (they run inside the open-tag span) writes a line-break constant unconditionally; R4 (purity) no formatter function (Write/String methods of parser nodes and what they call in the package) reads mutable package-level state, the clock, the environment or iterates a map. NOT decided: nodes whose grammar allows but does not require a line break inside a single-line element (block component calls), expression text re-formatting by go/format, the fixpoint on concrete files.",
+		Explanation: "The fixpoint equation fmt(fmt(x)) == fmt(x) itself is not decided. Decides the structural necessary condition named by the property's anchors — line-break decisions depend only on layout flags that re-parsing the output reproduces: the parser derives each layout flag (Element.IndentChildren, Element.IndentAttrs, GoCode.Multiline) from the presence of a line break inside a source span, so on the flag=false branch the formatter itself must add no line break inside that span, and on the flag=true branch it must add one. R1 in the node-list writer, the line-break constant can reach the trailing-space write only under the `indent` mode (every assignment of a newline-containing constant to the written value is control-dependent on the indent parameter; values taken from the source node are carried over, not added); R2 for each flag, the constants written directly on the false branch contain no line break and the true branch writes at least one; R3 no attribute writer (they run inside the open-tag span) writes a line-break constant unconditionally; R5 a formatter function that writes a trimmed copy of a field tests that same copy (not the raw field) for line breaks; R6 the import rewriter that `templ fmt` runs takes its decision on the number of imports only after the import set is final; R4 (purity) no formatter function (Write/String methods of parser nodes and what they call in the package) reads mutable package-level state, the clock, the environment or iterates a map. NOT decided: nodes whose grammar allows but does not require a line break inside a single-line element (block component calls), expression text re-formatting by go/format, the fixpoint on concrete files.",
 		Assumptions: []string{"the parser sets a layout flag iff the corresponding source span contains a line break (elementparser.go / gocodeparser.go)"},
 		Trusted:     []string{"go/types", "x/tools go/packages"},
 		Run:         runC09,
@@ -67,7 +67,7 @@ func formatterWrites(info *types.Info, root ast.Node, f func(call *ast.CallExpr,
 }
 
 func runC09(c *Ctx) {
-	c.load("./parser/v2", "./generator")
+	c.load("./parser/v2", "./generator", "./cmd/templ/imports")
 	p := c.pkg("parser/v2")
 	info := p.TypesInfo
 
@@ -394,6 +394,8 @@ func runC09(c *Ctx) {
 
 	// R4 ------------------------------------------------------------
 	formatterPurity(c, p)
+	layoutTestsOnNormalisedText(c, p)
+	importCountDecidedLast(c)
 	c.floor("C09.R2", 6)
 	c.floor("C09.R3", 5)
 }
@@ -500,4 +502,106 @@ func containsReturn(n ast.Node) bool {
 		return true
 	})
 	return found
+}
+
+// layoutTestsOnNormalisedText: C09.R5 — when a formatter function writes a trimmed copy of a field, its line-break test
+// must look at that same trimmed copy: surrounding whitespace of the raw field is not reproduced by the formatter's own
+// output, so a test on the raw field takes a different branch on the second run.
+func layoutTestsOnNormalisedText(c *Ctx, p *packages.Package) {
+	info := p.TypesInfo
+	n := 0
+	for _, fd := range allFuncDecls(p) {
+		// trimmed copies: local := strings.TrimSpace(<expr>)
+		trimmedOf := map[string]string{} // raw expr text → local name
+		ast.Inspect(fd.Body, func(x ast.Node) bool {
+			as, ok := x.(*ast.AssignStmt)
+			if !ok || len(as.Lhs) != 1 || len(as.Rhs) != 1 {
+				return true
+			}
+			call, ok := as.Rhs[0].(*ast.CallExpr)
+			if !ok || len(call.Args) != 1 {
+				return true
+			}
+			if fn := calleeOf(info, call); fn != nil && fullName(fn) == "strings.TrimSpace" {
+				if id, ok := as.Lhs[0].(*ast.Ident); ok {
+					trimmedOf[types.ExprString(call.Args[0])] = id.Name
+				}
+			}
+			return true
+		})
+		if len(trimmedOf) == 0 {
+			continue
+		}
+		ast.Inspect(fd.Body, func(x ast.Node) bool {
+			call, ok := x.(*ast.CallExpr)
+			if !ok || len(call.Args) < 2 {
+				return true
+			}
+			fn := calleeOf(info, call)
+			if fn == nil || fn.Pkg() == nil || fn.Pkg().Path() != "strings" {
+				return true
+			}
+			switch fn.Name() {
+			case "Contains", "ContainsRune", "Count", "Split", "Index", "ContainsAny":
+			default:
+				return true
+			}
+			if !hasNL(info, call.Args[1]) {
+				return true
+			}
+			n++
+			raw := types.ExprString(call.Args[0])
+			key := fmt.Sprintf("%s|line-break-test-on:%s", funcKey(p, fd), raw)
+			if local, isRaw := trimmedOf[raw]; isRaw {
+				c.viol("C09.R5", key, c.pos(call.Pos()), fmt.Sprintf("%s decides its layout by looking for a line break in the raw %s although it writes the trimmed copy %s: a line break that only surrounds the text (`attr={⏎x⏎}`) is not reproduced by the formatter's own output, so the second run takes the other branch", fd.Name.Name, raw, local))
+			} else {
+				c.ok("C09.R5", key, c.pos(call.Pos()), "the line-break test looks at the text that is written")
+			}
+			return true
+		})
+	}
+	c.count("line_break_tests_in_trimming_functions", n)
+}
+
+// importCountDecidedLast: C09.R6 — templ fmt also rewrites the import block; a decision on the number of imports must be
+// taken on the final import set (after unused imports were deleted and missing ones added), otherwise the next run, which
+// starts from that final set, decides differently.
+func importCountDecidedLast(c *Ctx) {
+	p := c.pkg("cmd/templ/imports")
+	info := p.TypesInfo
+	n := 0
+	for _, fd := range allFuncDecls(p) {
+		var tests []*ast.IfStmt
+		var muts []*ast.CallExpr
+		ast.Inspect(fd.Body, func(x ast.Node) bool {
+			switch y := x.(type) {
+			case *ast.IfStmt:
+				if strings.Contains(types.ExprString(y.Cond), ".Imports)") && strings.HasPrefix(types.ExprString(y.Cond), "len(") {
+					tests = append(tests, y)
+				}
+			case *ast.CallExpr:
+				if fn := calleeOf(info, y); fn != nil && fn.Pkg() != nil && strings.HasSuffix(fn.Pkg().Path(), "ast/astutil") {
+					switch fn.Name() {
+					case "AddNamedImport", "DeleteNamedImport", "AddImport", "DeleteImport", "DeleteUnusedImports":
+						muts = append(muts, y)
+					}
+				}
+			}
+			return true
+		})
+		for _, t := range tests {
+			n++
+			late := ""
+			for _, m := range muts {
+				if m.Pos() > t.End() {
+					late = c.pos(m.Pos())
+				}
+			}
+			c.check(late == "", "C09.R6", funcKey(p, fd)+"|import-count-decided-on-final-set", c.pos(t.Pos()), "no import is added or deleted after the test on the number of imports",
+				fmt.Sprintf("%s tests %s and afterwards still adds or deletes imports (%s): the layout chosen for the import block is based on a count that the same run changes, so the next run — starting from the final set — rewrites the block again", fd.Name.Name, types.ExprString(t.Cond), late))
+		}
+	}
+	if n == 0 {
+		c.ok("C09.R6", p.PkgPath+"|no-import-count-decision", "", "the import processor takes no decision on the number of imports")
+	}
 }
